@@ -19,12 +19,17 @@ A = [
     'import lib\nimport b\n\nfn helper(y) {\n  y\n}\n\npub fn main() {\n  let x = helper(lib.one())\n  b.twice(x)\n}\n',
     '',
     'import lib\nimport b.{twice}\n\npub type Box {\n  Box(v: Int)\n}\n\npub fn main() {\n  let x = Box(v: lib.one())\n  twice(x.v)\n}\n',
+    # 4 / 5 / 6 differ in ONE module qualifier only (a type annotation, a call): a re-lowered item that compares equal to the old one is not recomputed
+    'import lib\nimport b\n\npub fn adopt(p: lib.T) {\n  p.v\n}\n\npub fn pick() {\n  lib.one()\n}\n',
+    'import lib\nimport b\n\npub fn adopt(p: b.T) {\n  p.v\n}\n\npub fn pick() {\n  lib.one()\n}\n',
+    'import lib\nimport b\n\npub fn adopt(p: lib.T) {\n  p.v\n}\n\npub fn pick() {\n  b.one()\n}\n',
 ]
 B = [
     'pub fn twice(n) {\n  n + n\n}\n',
     'pub fn zero() {\n  0\n}\n\npub fn twice(n) {\n  n * 2\n}\n',
     'pub fn twice(n: String) {\n  n\n}\n',
     'pub fn twice(n) {\n  n +\n',
+    'pub type T {\n  T(v: String)\n}\n\npub fn one() {\n  "s"\n}\n\npub fn twice(n) {\n  n\n}\n',
 ]
 L = [
     'pub fn one() {\n  1\n}\n',
@@ -52,7 +57,8 @@ def render(st):
 
 START = [{'a': 0, 'b': 0, 'l': 0, 'c': 0, 'edge': 1, 'bdir': 0},
          {'a': 3, 'b': 1, 'l': 3, 'c': 1, 'edge': 1, 'bdir': 0},
-         {'a': 2, 'b': 3, 'l': 0, 'c': 1, 'edge': 0, 'bdir': 1}]
+         {'a': 2, 'b': 3, 'l': 0, 'c': 1, 'edge': 0, 'bdir': 1},
+         {'a': 4, 'b': 4, 'l': 1, 'c': 0, 'edge': 1, 'bdir': 0}]
 
 
 def all_histories(start, n, limit=None, seed=0):
